@@ -225,6 +225,9 @@ class Emitter:
 
     # ---- literals
     def lit(self, v, node):
+        if v is None:
+            # the literal None: only as a value of type O (`option Z`)
+            return '(@None Z)', 'O'
         if isinstance(v, bool):
             return ('true' if v else 'false'), 'B'
         if self.mode == 'Z':
@@ -531,6 +534,27 @@ class Emitter:
                     if (ta, tl, th) != ('T', 'T', 'T'):
                         self.fail(n, 'np.clip on non-real operands')
                     return f'(nmin Nm_ (nmax Nm_ {a} {lo}) {hi})', 'T'
+                if base == 'clip' and len(n.args) == 3 and not n.keywords and m == 'Z' and mod in ('np', 'numpy'):
+                    # the same on an integer-coded ordered set (C07)
+                    a, ta = self.e(n.args[0])
+                    lo, tl = self.e(n.args[1])
+                    hi, th = self.e(n.args[2])
+                    if (ta, tl, th) != ('Z', 'Z', 'Z'):
+                        self.fail(n, 'np.clip on non-integer operands')
+                    return f'(Z.min (Z.max {a} {lo}) {hi})', 'Z'
+                if base in ('equal', 'not_equal') and len(n.args) == 2 and not n.keywords and mod in ('np', 'numpy'):
+                    # np.equal(a, b) / np.not_equal(a, b): per element the comparison a == b / a != b
+                    cmp_ = ast.Compare(left=n.args[0], ops=[ast.Eq() if base == 'equal' else ast.NotEq()],
+                                       comparators=[n.args[1]])
+                    return self.e(ast.copy_location(cmp_, n))
+                if (base in ('all', 'any') and len(n.args) == 1 and not n.keywords and mod in ('np', 'numpy')
+                        and self.k.get('elementwise_reduce')):
+                    # opt-in (kernel flag `elementwise_reduce = true`): read per element, the
+                    # reduction of a one-element boolean array is that element
+                    a, ta = self.e(n.args[0])
+                    if ta != 'B':
+                        self.fail(n, 'np.all/np.any of a non-boolean')
+                    return a, 'B'
                 if base == 'erf' and len(n.args) == 1 and m == 'Num':
                     a, _ = self.e(n.args[0])
                     return f'(nerf Nm_ {a})', 'T'
@@ -658,7 +682,7 @@ def translate_kernel(k, trees):
         unused = [n for n in unused if n not in idx_used]
         if unused:
             raise TranslateError(f"kernel {k['name']}: declared args not used by the source expression: {unused}")
-    ct = {'Z': 'Z', 'B': 'bool', 'T': 'T', 'ZL': 'list Z'}[typ]
+    ct = {'Z': 'Z', 'B': 'bool', 'T': 'T', 'O': 'option Z', 'ZL': 'list Z'}[typ]
     subargs = []
     for i, (b, ia) in enumerate(em.subs):
         exp = em.expected_subs[i]
@@ -670,7 +694,7 @@ def translate_kernel(k, trees):
     lines.append(f"(* {k['file']}:{k['func']} [{k['select']}] line {lineno}\n   {src.replace('(*', '( *').replace('*)', '* )')} *)")
     pre = '{T : Type} (Nm_ : Num T) ' if em.mode == 'Num' else ''
     allb = binder(em.args, em.mode)
-    subb = ' '.join(f"({n} : {({'Z': 'Z', 'B': 'bool', 'T': 'T', 'ZL': 'list Z'}[t])})" for n, t in subargs)
+    subb = ' '.join(f"({n} : {({'Z': 'Z', 'B': 'bool', 'T': 'T', 'O': 'option Z', 'ZL': 'list Z'}[t])})" for n, t in subargs)
     lines.append(f"Definition {k['name']} {pre}{allb} {subb} : {ct} :=\n  {body}.")
     for i, (b, ia) in enumerate(em.subs):
         if ia is None:
